@@ -9,7 +9,8 @@
  *   P <pwtext-hex>                                      scripted passwd db + home directories from now on
  *   N <assign-hex> <rc> <cdb-hex> <stderr-hex>          real qmail-newu on that users/assign; its users/cdb is current
  *   C <cdb-hex|x>                                       raw bytes installed as users/cdb (x = no file)
- *   K <key-hex> <r> <data-hex>                          real cdb_seek on the current cdb (r=1 found, 0, -1 error, -2 data unreadable)
+ *   K <key-hex> <r> <data-hex> <pos>                    real cdb_seek on the current cdb (r=1 found, 0, -1 error, -2 data unreadable);
+ *                                                       pos = file position cdb_seek left for the data (-1 unless it reported a record)
  *   G <local-hex> <rc> <out-hex>                        real qmail-getpw main
  *   S <fault> <sender-hex> <recip-hex> <X|E|D> <code> <log>   docmd()+spawn() child: X = execv of qmail-local reached,
  *                                                       E = _exit(code), D = docmd refused (log = its message)
@@ -286,14 +287,15 @@ static void do_K(const unsigned char *k, size_t n) {
   int f = open("users/cdb", O_RDONLY);
   if (f < 0) return;
   uint32 dlen = 0; int r = cdb_seek(f, (char *)k, (unsigned)n, &dlen);
-  unsigned char *data = 0; size_t dn = 0;
+  unsigned char *data = 0; size_t dn = 0; long long where = -1;
   if (r == 1) {
     off_t here = lseek(f, 0, SEEK_CUR); struct stat st; fstat(f, &st);
+    where = (long long)here;
     if ((off_t)dlen > st.st_size - here) r = -2;
     else { data = malloc(dlen + 1); if (cdb_bread(f, (char *)data, dlen) == -1) r = -2; else dn = dlen; }
   }
   close(f);
-  fputs("K ", h_out); h_hex(k, n); fprintf(h_out, " %d ", r); h_hex(data, dn); fputc('\n', h_out);
+  fputs("K ", h_out); h_hex(k, n); fprintf(h_out, " %d ", r); h_hex(data, dn); fprintf(h_out, " %lld\n", where);
   free(data);
 }
 static void do_G(const unsigned char *l, size_t n) {
@@ -355,7 +357,8 @@ static const char *tl[] = {
   "=a:ua:1001:101:/h/a:::", "=A:uA:1002:102:/h/A:-:x:", "+a:wa:1003:103:/h/wa:-:p:", "+a-:wad:1004:104:/h/wad:-::",
   "+:wall:1005:105:/h/all:-::", "+ab:wab:1006:106:/h/wab:::", "=a-b:uab:1007:107:/h/uab:::", "+a-b:wabx:1008:108:/h/wabx:-:q:",
   "=r:root:0:0:/root:::", "=b:ub:4294967296:7:/h/b:::", "bad", "=s:us:12:13:/h:-", "+A-B:wx:1009:109:/h/wx:-::",
-  "=ab:uab2:x12:y:/h/ab2:::extra:stuff", "+r-:rootw:0:5:/root:-::", "+a.:wdot:1010:110:/h/wdot:.::" };
+  "=ab:uab2:x12:y:/h/ab2:::extra:stuff", "+r-:rootw:0:5:/root:-::", "+a.:wdot:1010:110:/h/wdot:.::",
+  "=c:uc:1011:111:/h/c:-:x" /* seven fields: one colon short */ };
 #define NTL (sizeof tl / sizeof tl[0])
 static const char *probe_locals[] = { "a", "A", "ab", "aB", "a-", "a-b", "A-B", "a-b-c", "a-bc", "a.b", "abc", "b", "r", "r-x", "R", "s", "", "-", "c", "a-B-C",
                                       "x-y", "a@b", "ba" };
@@ -380,14 +383,17 @@ static char gnames[4096][48]; static int ngnames;
 static void gen_assign(hbuf *a, int nent, int clean) {
   hbuf_reset(a); ngnames = 0;
   for (int i = 0; i < nent; i++) {
-    char nm[16], line[256];
+    char nm[48], line[256];
     size_t nl = gen_name(nm, nent > 100 ? 8 : 4);
+    /* now and then a name longer than cdb_seek's 32-byte comparison chunk, sharing a long prefix with its siblings */
+    if (h_below(24) == 0) { nl = 30 + h_below(12); for (size_t j = 0; j < nl; j++) nm[j] = j < 29 ? 'l' : "ab-"[h_below(3)]; nm[nl] = 0; }
     if (ngnames < 4096) strcpy(gnames[ngnames++], nm);
     int kind = h_below(20);
     unsigned uid = h_below(12) == 0 ? 0 : 1000 + h_below(50), gid = 100 + h_below(5);
     const char *dash = h_below(2) ? "-" : "", *pre = (const char *[]){ "", "", "p", "x-" }[h_below(4)];
     if (!clean && kind == 0) snprintf(line, sizeof line, "%s", nm);                                /* no colon */
-    else if (!clean && kind == 1) snprintf(line, sizeof line, "=%s:u%d:%u:%u:/h/u%d", nm, i, uid, gid, i); /* too few colons */
+    else if (!clean && kind == 1 && h_below(2)) snprintf(line, sizeof line, "=%s:u%d:%u:%u:/h/u%d", nm, i, uid, gid, i); /* too few colons */
+    else if (!clean && kind == 1) snprintf(line, sizeof line, "%c%s:u%d:%u:%u:/h/u%d:%s:%s", "=+"[h_below(2)], nm, i, uid, gid, i, dash, pre); /* exactly one colon short */
     else if (!clean && kind == 2) snprintf(line, sizeof line, ":u%d:%u:%u:/h/u%d:%s:%s:", i, uid, gid, i, dash, pre);
     else if (!clean && kind == 3) snprintf(line, sizeof line, "%c%s:u%d:%u:%u:/h/u%d:%s:%s:", "#x-"[h_below(3)], nm, i, uid, gid, i, dash, pre);
     else if (kind < 11) snprintf(line, sizeof line, "=%s:u%d:%u:%u:/h/u%d:%s:%s:", nm, i, uid, gid, i, dash, pre);
